@@ -8,15 +8,15 @@ Local Open Scope N_scope.
 (** * readline and the line window *)
 Lemma readline_pre p X : ~ In 10 p -> readline (p ++ X) = (p ++ fst (readline X), snd (readline X)).
 Proof.
-  induction p as [|c p IH]; intro N; [destruct (readline X); reflexivity|].
-  cbn [app readline]. destruct (c =? 10) eqn:E; [apply N.eqb_eq in E; exfalso; apply N; left; exact E|].
-  rewrite IH by (intro I; apply N; right; exact I). reflexivity.
+  induction p as [|c p IH]; intro NI; [cbn [app]; destruct (readline X); reflexivity|].
+  cbn [app readline]. destruct (c =? 10) eqn:E; [apply N.eqb_eq in E; exfalso; apply NI; left; exact E|].
+  rewrite IH by (intro I; apply NI; right; exact I). reflexivity.
 Qed.
 Lemma readline_line x more : ~ In 10 x -> readline (x ++ 10 :: more) = (x ++ [10], more).
-Proof. intro N. rewrite readline_pre by exact N. cbn [readline]. rewrite N.eqb_refl. reflexivity. Qed.
+Proof. intro NI. rewrite readline_pre by exact NI. cbn [readline]. rewrite N.eqb_refl. reflexivity. Qed.
 Lemma readline_split b : b = fst (readline b) ++ snd (readline b).
 Proof.
-  induction b as [|c b IH]; [reflexivity|]. cbn [readline]. destruct (c =? 10); [reflexivity|].
+  induction b as [|c b IH]; [reflexivity|]. cbn [readline]. destruct (c =? 10) eqn:E; [apply N.eqb_eq in E; subst c; reflexivity|].
   destruct (readline b) as [l r]. cbn [fst snd app] in *. f_equal. exact IH.
 Qed.
 
@@ -26,6 +26,9 @@ Fixpoint take_lines (n : nat) (b : text) : text * text :=
   | O => ([], b)
   | S n' => let (raw, r) := readline b in let (x, y) := take_lines n' r in (raw ++ x, y)
   end.
+Lemma take_lines_S n b : take_lines (S n) b =
+  (fst (readline b) ++ fst (take_lines n (snd (readline b))), snd (take_lines n (snd (readline b)))).
+Proof. cbn [take_lines]. destruct (readline b) as [raw r]. cbn [fst snd]. destruct (take_lines n r) as [x y]. reflexivity. Qed.
 Lemma take_lines_split n : forall b, b = fst (take_lines n b) ++ snd (take_lines n b).
 Proof.
   induction n as [|n IH]; intro b; [reflexivity|]. cbn [take_lines].
@@ -64,6 +67,8 @@ Proof.
 Qed.
 Lemma ascii_app a b : ascii (a ++ b) = ascii a && ascii b.
 Proof. apply forallb_app. Qed.
+Lemma ascii_cons c s : ascii (c :: s) = (c <? 128) && ascii s.
+Proof. reflexivity. Qed.
 Lemma ascii_ws w : all_ws w = true -> ascii w = true.
 Proof. unfold all_ws, ascii. rewrite !forallb_forall. intros H c I. apply H in I. unfold wsc in I. lia. Qed.
 Lemma ascii_uid u : forallb uidc u = true -> ascii u = true.
@@ -87,15 +92,20 @@ Proof.
   assert (Aoh : ascii (dec_of_Z (h1_ofxheader h)) = true) by (rewrite Foh; reflexivity).
   assert (Ada : ascii (h1_data h) = true) by (rewrite Fda; reflexivity).
   assert (Aco : ascii (h1_compression h) = true) by (rewrite Fco; reflexivity).
-  assert (Ave : ascii (dec_of_Z (h1_version h)) = true) by (apply ascii_dec; lia).
+  assert (Ave : ascii (dec_of_Z (h1_version h)) = true) by (apply ascii_dec; exact (proj1 Fve)).
   assert (Ase : ascii (h1_security h) = true) by (apply (ascii_token _ _ Fse); reflexivity).
   assert (Aen : ascii (h1_encoding h) = true) by (apply (ascii_token _ _ Fen); reflexivity).
   assert (Ach : ascii (h1_charset h) = true) by (apply (ascii_token _ _ Fch); reflexivity).
   assert (Aol : ascii (h1_old h) = true) by (apply ascii_uid; exact Uol).
   assert (Ane : ascii (h1_new h) = true) by (apply ascii_uid; exact Une).
-  destruct (l_comp l);
-  repeat (rewrite ascii_app || rewrite ascii_fld || rewrite ascii_ws); try reflexivity; try assumption; try (apply ascii_ws; assumption);
-    try (apply all_blank_ws; assumption).
+  pose proof (ascii_ws _ (all_blank_ws _ Gi)) as Bi.
+  pose proof (ascii_ws _ G1) as B1. pose proof (ascii_ws _ G2) as B2. pose proof (ascii_ws _ G3) as B3. pose proof (ascii_ws _ G4) as B4.
+  pose proof (ascii_ws _ G5) as B5. pose proof (ascii_ws _ G6) as B6. pose proof (ascii_ws _ G7) as B7. pose proof (ascii_ws _ G8) as B8.
+  pose proof (ascii_ws _ G9) as B9.
+  pose proof (ascii_ws _ H1) as D1. pose proof (ascii_ws _ H2) as D2. pose proof (ascii_ws _ H3) as D3. pose proof (ascii_ws _ H4) as D4.
+  pose proof (ascii_ws _ H5) as D5. pose proof (ascii_ws _ H6) as D6. pose proof (ascii_ws _ H7) as D7. pose proof (ascii_ws _ H8) as D8.
+  unfold fld. destruct (l_comp l); repeat (rewrite ascii_app || rewrite ascii_cons);
+    rewrite ?Bi, ?B1, ?B2, ?B3, ?B4, ?B5, ?B6, ?B7, ?B8, ?B9, ?D1, ?D2, ?D3, ?D4, ?D5, ?D6, ?D7, ?D8, ?Aoh, ?Ada, ?Aco, ?Ave, ?Ase, ?Aen, ?Ach, ?Aol, ?Ane; reflexivity.
 Qed.
 
 (** * the blank-line skip *)
@@ -125,23 +135,26 @@ Proof.
     rewrite lead_text_cons. rewrite <- app_assoc. cbn [app skip_blank]. rewrite readline_line by (apply blank_no_lf; exact Bx).
     cbn [scan_dec bind]. destruct (blank_line_scan x Bx) as [E1 E2]. rewrite E1, E2.
     rewrite IH; [|exact Bl|cbn [List.length] in L; lia|exact NB].
-    f_equal. f_equal. f_equal. change (x ++ 10 :: lead_text ls) with (x ++ [10] ++ lead_text ls). rewrite app_assoc, len_app. lia.
+    assert (EL : pos + len (x ++ [10]) + len (lead_text ls) = pos + len (x ++ 10 :: lead_text ls))
+      by (change (x ++ 10 :: lead_text ls) with (x ++ [10] ++ lead_text ls); rewrite app_assoc, !len_app; lia).
+    rewrite EL. reflexivity.
 Qed.
 
 (** * strip, skipN *)
 Lemma skipN_app a b : skipN (len a) (a ++ b) = b.
 Proof. unfold skipN, len. rewrite Nat2N.id. induction a as [|c a IH]; [reflexivity|]. cbn [List.length skipn app]. exact IH. Qed.
+Lemma body_ok_inv b : body_ok b = true -> (exists b', b = 60 :: b') /\ (exists r, rev b = 62 :: r).
+Proof.
+  unfold body_ok. destruct b as [|c b]; [discriminate|]. destruct (rev (c :: b)) as [|d r]; [discriminate|].
+  rewrite andb_true_iff, !N.eqb_eq. intros [-> ->]. split; eexists; reflexivity.
+Qed.
 Lemma strip_body g b t : forallb is_space g = true -> forallb is_space t = true -> body_ok b = true -> strip (g ++ b ++ t) = b.
 Proof.
   intros G Tt B. unfold strip. rewrite skipws_app_space by exact G.
-  unfold body_ok in B. destruct b as [|c b]; [discriminate B|]. destruct c as [|p]; try discriminate B.
-  destruct (N.eq_dec (N.pos p) 60) as [E|E]; [|exfalso; repeat (destruct p as [p|p|]; try discriminate B); apply E; reflexivity].
-  rewrite E in *. cbn [app]. rewrite skipws_stop by (vm_compute; reflexivity).
-  change (60 :: b ++ t) with ((60 :: b) ++ t). rewrite rev_app_distr.
+  destruct (body_ok_inv b B) as [[b' E] [r R]]. subst b. cbn [app]. rewrite skipws_stop by (vm_compute; reflexivity).
+  change (60 :: b' ++ t) with ((60 :: b') ++ t). rewrite rev_app_distr.
   rewrite skipws_app_space by (rewrite forallb_forall in *; intros x I; apply in_rev in I; apply Tt; exact I).
-  destruct (rev (60 :: b)) as [|d r] eqn:R; [discriminate B|].
-  assert (D : d = 62). { destruct d as [|q]; try discriminate B. repeat (destruct q as [q|q|]; try discriminate B). reflexivity. }
-  subst d. rewrite skipws_stop by (vm_compute; reflexivity). rewrite <- R. apply rev_involutive.
+  rewrite R. rewrite skipws_stop by (vm_compute; reflexivity). rewrite <- R. apply rev_involutive.
 Qed.
 
 (** * the declared codec *)
@@ -175,29 +188,73 @@ Proof.
   destruct FL as [X FL].
   assert (NB : nonblank (map scan_char (fst (readline rest))) = true).
   { rewrite FL, map_app. unfold nonblank. rewrite existsb_app. cbn [map existsb]. change (is_space (scan_char 79)) with false. cbn [negb orb]. apply orb_true_r. }
-  rewrite (skip_blank_lead (l_lines l) 8 rest 0 Gb ltac:(lia) NB). cbn [bind]. rewrite N.add_0_l.
+  rewrite (skip_blank_lead (l_lines l) 8 rest 0 Gb ltac:(clear - Gn; lia) NB). cbn [bind]. rewrite N.add_0_l.
   assert (NX : match_xml (map scan_char (fst (readline rest))) = false).
   { rewrite FL, map_app. unfold match_xml. destruct (l_indent l) as [|c ind] eqn:EI.
     - cbn [map app]. change (scan_char 79) with 79. reflexivity.
     - cbn [map app]. cbn [all_blank forallb] in Gi. apply andb_true_iff in Gi. destruct Gi as [Gc _].
-      unfold blankc in Gc. assert (C60 : scan_char c <> 60) by (unfold scan_char; destruct (c <? 128); lia).
-      change (T "<?xml") with (60 :: T "?xml"). cbn [strip_prefix]. destruct (60 =? scan_char c) eqn:E; [lia|]. reflexivity. }
+      unfold blankc in Gc. assert (C60 : scan_char c <> 60) by (clear - Gc; unfold scan_char; destruct (c <? 128); lia).
+      change (T "<?xml") with (60 :: T "?xml"). cbn [strip_prefix]. destruct (60 =? scan_char c) eqn:E; [clear - E C60; lia|]. reflexivity. }
   rewrite NX. rewrite read_lines_take. cbn [bind app].
   (* the nine-line window holds the whole header *)
   assert (WIN : exists c1 c2, l_gap l ++ encbody = c1 ++ c2 /\ fst (take_lines 9 rest) = hdr_text l h ++ c1).
-  { unfold rest. apply take_lines_prefix. lia. }
+  { unfold rest. apply take_lines_prefix. clear - Glf. lia. }
   destruct WIN as [c1 [c2 [EG W9]]].
   assert (RAW : map scan_char (fst (readline rest)) ++ map scan_char (fst (take_lines 8 (snd (readline rest)))) = hdr_text l h ++ map scan_char c1).
-  { rewrite <- map_app. cbn [take_lines] in W9. destruct (readline rest) as [raw r]. cbn [fst snd].
-    destruct (take_lines 8 r) as [x y]. cbn [fst] in *. rewrite W9, map_app, (scan_ascii _ AH). reflexivity. }
+  { rewrite <- map_app. change 9%nat with (S 8) in W9. rewrite take_lines_S in W9. cbn [fst] in W9.
+    rewrite W9, map_app, (scan_ascii _ AH). reflexivity. }
   rewrite RAW.
   assert (ST : stops is_word_dash (map scan_char c1)).
   { destruct c1 as [|c c1]; [exact I|]. cbn [map stops]. destruct (l_gap l) as [|g gap] eqn:EGap.
     - cbn [app] in EG. rewrite EB in EG. injection EG as EG _. subst c. reflexivity.
     - cbn [app] in EG. injection EG as EG _. subst c. cbn [all_ws forallb] in Gg. apply andb_true_iff in Gg. destruct Gg as [Gc _].
-      assert (Sg : scan_char g = g) by (unfold scan_char; apply wsc_lt in Gc; destruct (g <? 128) eqn:E; [reflexivity|lia]).
+      assert (Sg : scan_char g = g) by (clear - Gc; unfold scan_char; apply wsc_lt in Gc; destruct (g <? 128) eqn:E; [reflexivity|lia]).
       rewrite Sg. apply space_not_word_dash, wsc_space, Gc. }
   rewrite (parse_v1_layout l h (map scan_char c1) V L ST). cbn [bind]. rewrite CO. cbn [bind].
-  rewrite <- len_app. rewrite app_assoc. rewrite skipN_app. unfold decode. rewrite DE. cbn [bind].
+  subst rest. rewrite <- len_app. rewrite app_assoc. rewrite skipN_app. unfold decode. rewrite DE. cbn [bind].
   rewrite strip_body; [reflexivity|apply all_ws_space; exact Gg|apply all_ws_space; exact Tr|exact B].
+Qed.
+
+(** * version 2 *)
+Lemma lead_text_ws ls : forallb all_blank ls = true -> all_ws (lead_text ls) = true.
+Proof.
+  induction ls as [|x ls IH]; [reflexivity|]. cbn [forallb]. rewrite andb_true_iff. intros [A B]. rewrite lead_text_cons.
+  unfold all_ws. rewrite forallb_app. cbn [forallb]. fold (all_ws x). fold (all_ws (lead_text ls)). rewrite (all_blank_ws x A), (IH B). reflexivity.
+Qed.
+Lemma xml_decl_facts q : q = 34 \/ q = 39 ->
+  ~ In 10 (xml_decl_q q) /\ ascii (xml_decl_q q) = true /\ (forall Y, match_xml (xml_decl_q q ++ Y) = true) /\ exists x, xml_decl_q q = 60 :: x.
+Proof.
+  intros [Q|Q]; subst q; (split; [vm_compute; intuition discriminate|split; [reflexivity|split; [intro Y; vm_compute; reflexivity|eexists; reflexivity]]]).
+Qed.
+
+Theorem parse_header_exact_v2_l l h encbody body' :
+  valid2 h = true -> lay2_ok l = true -> (exists r, body' = 60 :: r) ->
+  decode_opt 2 (head2 l h ++ encbody) = Some (head2 l h ++ body') ->
+  parse_header (file2 l h encbody) = OK (H2 h, body').
+Proof.
+  intros V L [br EB] DE.
+  unfold lay2_ok in L. rewrite !andb_true_iff in L. destruct L as [[[[Ln Lb] Lq] La] Lbb].
+  assert (Q : m_quote l = 34 \/ m_quote l = 39) by (clear - Lq; lia).
+  destruct (xml_decl_facts (m_quote l) Q) as [XN [XA [XM [xx XE]]]].
+  unfold parse_header, parse_header_gen, file2.
+  assert (HD : head2 l h ++ encbody = lead_text (m_lines l) ++ (xml_decl_q (m_quote l) ++ m_a l ++ ofx_decl h ++ m_b l ++ encbody)).
+  { unfold head2. rewrite <- !app_assoc. reflexivity. }
+  rewrite HD. set (rest := xml_decl_q (m_quote l) ++ m_a l ++ ofx_decl h ++ m_b l ++ encbody).
+  assert (FL : fst (readline rest) = xml_decl_q (m_quote l) ++ fst (readline (m_a l ++ ofx_decl h ++ m_b l ++ encbody))).
+  { unfold rest. rewrite readline_pre by exact XN. reflexivity. }
+  assert (NB : nonblank (map scan_char (fst (readline rest))) = true).
+  { rewrite FL, map_app, (scan_ascii _ XA), XE. reflexivity. }
+  rewrite (skip_blank_lead (m_lines l) 8 rest 0 Lb ltac:(clear - Ln; apply Nat.leb_le in Ln; lia) NB). cbn [bind].
+  rewrite FL, map_app, (scan_ascii _ XA), XM.
+  subst rest. rewrite <- HD. change v2_codec with 2. unfold decode. rewrite DE. cbn [bind].
+  assert (SRC : head2 l h ++ body' = (lead_text (m_lines l) ++ xml_decl_q (m_quote l) ++ m_a l) ++ ofx_decl h ++ (m_b l ++ body')).
+  { unfold head2. rewrite <- !app_assoc. reflexivity. }
+  rewrite SRC. rewrite parse_v2_at; [|exact V|].
+  - cbn [bind]. rewrite skipws_app_space by (apply all_ws_space; exact Lbb). rewrite EB. rewrite skipws_stop by (vm_compute; reflexivity).
+    rewrite <- EB. f_equal. f_equal.
+    assert (E : (lead_text (m_lines l) ++ xml_decl_q (m_quote l) ++ m_a l) ++ ofx_decl h ++ m_b l ++ body'
+                = ((lead_text (m_lines l) ++ xml_decl_q (m_quote l) ++ m_a l) ++ ofx_decl h ++ m_b l) ++ body') by (rewrite <- !app_assoc; reflexivity).
+    rewrite E. rewrite len_app. rewrite N.add_sub. apply skipN_app.
+  - rewrite <- !app_assoc. rewrite search_v2_skip by (apply ws_no_lt, lead_text_ws; exact Lb).
+    rewrite xml_decl_skip by exact Q. apply search_v2_skip. apply ws_no_lt. exact La.
 Qed.
